@@ -801,6 +801,12 @@ def _make_schema_loop(schema: set[CIFSchema]) -> Loop | None:
     )
 
 
+# An unquoted string must not begin with one of these words (case-insensitive) ...
+_RESERVED_WORDS = ('data_', 'loop_', 'save_', 'global_', 'stop_')
+# ... or with one of these characters.
+_RESERVED_LEADING_CHARS = '_#$[];'
+
+
 def _quotes_for_string_value(value: str) -> str | None:
     if '\n' in value:
         return ';'
@@ -810,10 +816,14 @@ def _quotes_for_string_value(value: str) -> str | None:
         return '"'
     if '"' in value:
         return "'"
-    if ' ' in value:
+    if ' ' in value or '\t' in value:
         return "'"
     if not value:
         return "'"  # so that empty strings are shown as ''
+    if value[0] in _RESERVED_LEADING_CHARS or value.lower().startswith(
+        _RESERVED_WORDS
+    ):
+        return "'"  # would be read as a tag, comment, keyword, etc.
     return None
 
 
@@ -836,6 +846,11 @@ def _format_value(value: Any) -> str:
     s = _encode_non_ascii(s)
 
     if (quotes := _quotes_for_string_value(s)) == ';':
+        if '\n;' in s:
+            raise ValueError(
+                'CIF 1.1 cannot encode a multi-line string with a line that '
+                f'begins with a semicolon: {s!r}'
+            )
         return f'; {s}\n;'
     elif quotes is not None:
         return quotes + s + quotes
